@@ -19,7 +19,7 @@ struct QuerySet {
     locals: &'static str,
 }
 
-const QSETS: &[QuerySet] = &[
+const STATIC_QSETS: &[QuerySet] = &[
     QuerySet { id: "stmt", lang: "stmt", tags: include_str!("stmt_tags.scm"), locals: include_str!("stmt_locals.scm") },
     QuerySet { id: "lst", lang: "lst", tags: include_str!("lst_tags.scm"), locals: include_str!("lst_locals.scm") },
     // the same tags without a locals query (tags_pattern_index = 0)
@@ -33,11 +33,70 @@ const QSETS: &[QuerySet] = &[
     // placement of the @name node relative to the tagged node: inside / equal / in front / behind (two grammars)
     QuerySet { id: "stmtp", lang: "stmt", tags: include_str!("stmtp_tags.scm"), locals: "" },
     QuerySet { id: "lstp", lang: "lst", tags: include_str!("lstp_tags.scm"), locals: "" },
+    // several matches of ONE pattern for one name node (ties of equal pattern index)
+    QuerySet { id: "stmtq", lang: "stmt", tags: include_str!("stmtq_tags.scm"), locals: "" },
+    QuerySet { id: "lstq", lang: "lst", tags: include_str!("lstq_tags.scm"), locals: "" },
     // a match that arrives after later names were flushed (corpus only)
     QuerySet { id: "stmto", lang: "stmt", tags: include_str!("stmto_tags.scm"), locals: "" },
     // the same finding in a realistic shape: definition with a trailing docstring (corpus only)
     QuerySet { id: "stmtl", lang: "stmt", tags: include_str!("stmtl_tags.scm"), locals: "" },
 ];
+
+/// Completion points of a pattern that shares ONE @name node with the other patterns of its query set:
+/// 0 = complete at the name, 1 = at the following sibling, 2 = at a later sibling, 3 = at the parent's last child.
+fn shared_name_pattern(lang: &str, point: usize, kind: &str) -> String {
+    match (lang, point) {
+        ("stmt", 0) => format!("(while_statement cond: (identifier) @name) @{kind}\n"),
+        ("stmt", 1) => format!("(while_statement cond: (identifier) @name body: (block) @{kind})\n"),
+        ("stmt", 2) => format!("(while_statement cond: (identifier) @name body: (block . (_) @{kind}))\n"),
+        ("stmt", _) => format!("(while_statement cond: (identifier) @name body: (block (_) @{kind} .))\n"),
+        (_, 0) => format!("(paren . (item (word) @name)) @{kind}\n"),
+        (_, 1) => format!("(paren . (item (word) @name) . (item) @{kind})\n"),
+        (_, 2) => format!("(paren . (item (word) @name) . (item) . (item) @{kind})\n"),
+        (_, _) => format!("(paren . (item (word) @name) (item) @{kind} .)\n"),
+    }
+}
+
+fn permutations(items: &[usize]) -> Vec<Vec<usize>> {
+    if items.len() <= 1 {
+        return vec![items.to_vec()];
+    }
+    let mut out = Vec::new();
+    for i in 0..items.len() {
+        let mut rest = items.to_vec();
+        let x = rest.remove(i);
+        for mut p in permutations(&rest) {
+            p.insert(0, x);
+            out.push(p);
+        }
+    }
+    out
+}
+
+/// All query sets: the hand-written ones plus, generated systematically, for grammars stmt and lst every assignment
+/// of completion points to pattern indices for 3 patterns (points 0,1,3: all 6 permutations) and 4 patterns (all 24):
+/// pattern i has kind `k<i>` (definition for even i, reference for odd i) and its own tagged node, so the winner of
+/// the "one tag per name node, lowest pattern index" rule is visible in kind, is_definition and range.
+fn qsets() -> &'static Vec<QuerySet> {
+    static QS: std::sync::OnceLock<Vec<QuerySet>> = std::sync::OnceLock::new();
+    QS.get_or_init(|| {
+        let mut v: Vec<QuerySet> = STATIC_QSETS.iter().map(|q| QuerySet { id: q.id, lang: q.lang, tags: q.tags, locals: q.locals }).collect();
+        for (lang, prefix) in [("stmt", "sw"), ("lst", "lw")] {
+            for points in [vec![0usize, 1, 3], vec![0, 1, 2, 3]] {
+                for perm in permutations(&points) {
+                    let mut tags = String::new();
+                    for (i, point) in perm.iter().enumerate() {
+                        let kind = format!("{}.k{i}", if i % 2 == 0 { "definition" } else { "reference" });
+                        tags.push_str(&shared_name_pattern(lang, *point, &kind));
+                    }
+                    let id = format!("{prefix}{}-{}", perm.len(), perm.iter().map(|p| p.to_string()).collect::<String>());
+                    v.push(QuerySet { id: Box::leak(id.into_boxed_str()), lang, tags: Box::leak(tags.into_boxed_str()), locals: "" });
+                }
+            }
+        }
+        v
+    })
+}
 
 fn strip_id(re: &str) -> usize {
     match re {
@@ -365,7 +424,7 @@ fn parse_spec(line: &str) -> Option<(String, Vec<u8>)> {
     if line.starts_with('#') || line.trim().is_empty() {
         return None;
     }
-    let is_q = |w: &str| QSETS.iter().any(|q| q.id == w);
+    let is_q = |w: &str| qsets().iter().any(|q| q.id == w);
     let (first, rest) = line.split_once(' ')?;
     if !is_q(first) {
         line = rest; // tolerate a leading case id
@@ -690,6 +749,64 @@ fn gen_lst(rng: &mut Rng) -> (Vec<u8>, &'static str) {
     (b, class)
 }
 
+/// Sources for the shared-name query sets: while statements whose bodies hold 0–4 untagged statements (sometimes a
+/// nested while, sometimes something broken), resp. groups with 1–5 items (sometimes nested).
+fn gen_whiles(rng: &mut Rng) -> Vec<u8> {
+    fn one(rng: &mut Rng, depth: usize, s: &mut String) {
+        s.push_str("while ");
+        s.push_str(pk(rng, IDS));
+        s.push_str(" {");
+        let n = rng.below(5);
+        for _ in 0..n {
+            s.push_str(pk(rng, &[" ", "\n  ", "\r\n"]));
+            if depth > 0 && rng.chance(1, 7) {
+                one(rng, depth - 1, s);
+            } else {
+                s.push_str(pk(rng, &["a;", "foo(1);", "x = 2;", "'€';", "// c\n", "b + 1;", "return 3;", "{ q; }", "? ;"]));
+            }
+        }
+        s.push_str(pk(rng, &[" }", "\n}", "}"]));
+    }
+    let mut s = String::new();
+    for _ in 0..rng.range(1, 8) {
+        if rng.chance(1, 4) {
+            s.push_str(pk(rng, &["z = 1; ", "foo(2);\n", "// note\n", "'é'; "]));
+        }
+        one(rng, 2, &mut s);
+        s.push_str(pk(rng, &["\n", " ", "\n\n"]));
+    }
+    s.into_bytes()
+}
+
+fn gen_parens(rng: &mut Rng) -> Vec<u8> {
+    fn one(rng: &mut Rng, depth: usize, s: &mut String) {
+        s.push('(');
+        let n = rng.range(1, 5);
+        for i in 0..n {
+            if i > 0 {
+                s.push_str(pk(rng, &[" ", "\n ", "  "]));
+            }
+            if i > 0 && depth > 0 && rng.chance(1, 6) {
+                one(rng, depth - 1, s);
+            } else if i == 0 || rng.chance(2, 3) {
+                s.push_str(pk(rng, &["a", "b", "é", "zé€", "abc", "q"]));
+            } else {
+                s.push_str(&format!("{}", rng.below(50)));
+            }
+        }
+        s.push(')');
+    }
+    let mut s = String::new();
+    for _ in 0..rng.range(1, 10) {
+        if rng.chance(1, 4) {
+            s.push_str(pk(rng, &["x ", "7 ", "é\n"]));
+        }
+        one(rng, 2, &mut s);
+        s.push_str(pk(rng, &[" ", "\n"]));
+    }
+    s.into_bytes()
+}
+
 fn gen_bytes(rng: &mut Rng) -> Vec<u8> {
     // byte strings for LossyUtf8: mixtures of well-formed scalars and ill-formed pieces
     let n = rng.below(12);
@@ -714,8 +831,8 @@ fn main() {
     let args: Vec<String> = std::env::args().collect();
     let out_path = args.get(1).expect("usage: c18 <ops-file> [--spec file]").clone();
     let mut out = std::io::BufWriter::new(std::fs::File::create(&out_path).unwrap());
-    let envs: Vec<Env> = QSETS.iter().map(build_env).collect();
-    let env_of = |qid: &str| QSETS.iter().position(|q| q.id == qid).map(|i| &envs[i]);
+    let envs: Vec<Env> = qsets().iter().map(build_env).collect();
+    let env_of = |qid: &str| qsets().iter().position(|q| q.id == qid).map(|i| &envs[i]);
     let mut ncases = 0usize;
     let mut ntags = 0usize;
     let mut classes: std::collections::BTreeMap<String, usize> = Default::default();
@@ -765,6 +882,52 @@ fn main() {
         with_err += e as usize;
         *classes.entry(format!("{qid}:{class}")).or_default() += 1;
         sizes[match src.len() { 0..=63 => 0, 64..=255 => 1, 256..=1023 => 2, 1024..=4095 => 3, _ => 4 }] += 1;
+    }
+    // shared-name query sets: every generated set gets sources (own PRNG stream so the cases above stay the same)
+    let mut rng2 = Rng::new(seed_from_env() ^ 0x5eed_18);
+    let per_set = if thorough { 40 } else { 5 };
+    for q in qsets().iter().filter(|q| q.id.starts_with("sw") || q.id.starts_with("lw")) {
+        for k in 0..per_set {
+            let src = if q.lang == "stmt" { gen_whiles(&mut rng2) } else { gen_parens(&mut rng2) };
+            let env = env_of(q.id).unwrap();
+            let (t, e) = emit_case(&mut out, env, q.id, &format!("{}-g{k}", q.id), &src);
+            ncases += 1;
+            ntags += t;
+            with_err += e as usize;
+            *classes.entry(format!("{}:shared-name", &q.id[..3])).or_default() += 1;
+        }
+    }
+    // ties: blocks `{ a; 1; 2; b; 3; }` resp. groups `(a 1 2 b 3)`
+    for k in 0..(if thorough { 600 } else { 120 }) {
+        let (qid, src) = if k % 2 == 0 {
+            let mut s = String::new();
+            for _ in 0..rng2.range(1, 4) {
+                s.push_str("{ ");
+                for _ in 0..rng2.range(1, 7) {
+                    if rng2.chance(1, 3) { s.push_str(pk(&mut rng2, IDS)); } else { s.push_str(&format!("{}", rng2.below(90))); }
+                    s.push_str(pk(&mut rng2, &["; ", ";\n  ", ";"]));
+                }
+                s.push_str("}\n");
+            }
+            ("stmtq", s.into_bytes())
+        } else {
+            let mut s = String::new();
+            for _ in 0..rng2.range(1, 5) {
+                s.push('(');
+                for i in 0..rng2.range(1, 7) {
+                    if i > 0 { s.push(' '); }
+                    if rng2.chance(1, 3) { s.push_str(pk(&mut rng2, &["a", "b", "é", "zé€"])); } else { s.push_str(&format!("{}", rng2.below(90))); }
+                }
+                s.push_str(") ");
+            }
+            ("lstq", s.into_bytes())
+        };
+        let env = env_of(qid).unwrap();
+        let (t, e) = emit_case(&mut out, env, qid, &format!("{qid}-g{k}"), &src);
+        ncases += 1;
+        ntags += t;
+        with_err += e as usize;
+        *classes.entry(format!("{qid}:ties")).or_default() += 1;
     }
     emit_c_errors(&mut out, &envs[0]);
     for k in 0..n_fn {
